@@ -42,7 +42,7 @@ TECHNIQUE = 'runtime monitoring: differential oracle (lazy run vs eager run of t
 
 
 def plan(tier, seed):
-    ndocs = 128 if tier == 'quick' else 2400
+    ndocs = 128 if tier == 'quick' else 1536
     shards = 16 if tier == 'quick' else 48
     specs = [{'kind': 'gen', 'docs': ndocs // shards, 'gshard': s} for s in range(shards)]
     specs.append({'kind': 'corpus'})
@@ -239,12 +239,14 @@ def compare_document(res, xmlschema, schema, text, tag, case, rng, tier, scratch
             continue
         eager[api] = observe(xmlschema, schema, lambda: xmlschema.XMLResource(text), api, 0)
     long_doc = len(text) > 30000
-    for depth in ((1,) if long_doc and tier == 'quick' else (1, 2, 3)):
+    # (long documents are the expensive ones: depths 2 and 3, explored and not claimed, are visited for a quarter of them)
+    for depth in ((1,) if long_doc and (tier == 'quick' or rng.random() < 0.75) else (1, 2, 3)):
         claimed = depth == 1
         eager['iter_depth'] = eager_iter_depth(xmlschema, text, depth)
         eager['iterfind'] = observe(xmlschema, schema, lambda: xmlschema.XMLResource(text), 'iterfind', depth)
         for thin in (True, False):
-            kinds = list(makers) if tier == 'thorough' else rng.sample(list(makers), 1 if long_doc else 2)
+            kinds = (rng.sample(list(makers), 2) if long_doc else list(makers)) if tier == 'thorough' else \
+                rng.sample(list(makers), 1 if long_doc else 2)
             for kind in kinds:
                 for api in APIS:
                     if api == 'iterfind' and depth == 3:
